@@ -284,6 +284,18 @@ def oracle_detect(ctx, ds, feat: dict, reg_tokens: list, table: dict, desc: dict
         shoc_matches = [cls_name(c) for c, s in matches if cls_name(c) in ('ShocSimple', 'ShocStandard')]
         if name in ('CFGrid1D', 'CFGrid2D') and shoc_matches:
             fail('shoc-not-preferred', f'{shoc_matches} match but the generic {name} was chosen')
+        if name in ('CFGrid1D', 'CFGrid2D'):
+            # what these two conventions are: latitude and longitude coordinates that are both one- (two-)
+            # dimensional; a dataset whose coordinates are anything else is not theirs to accept
+            want_nd = 1 if name == 'CFGrid1D' else 2
+            try:
+                topo = got(ds).topology
+                nds = (int(topo.latitude.ndim), int(topo.longitude.ndim))
+            except Exception as e:  # noqa
+                nds = f'{type(e).__name__}'
+            if nds != (want_nd, want_nd):
+                fail('grid-convention-accepts-wrong-rank',
+                     f'{name} chosen for a dataset whose latitude / longitude have {nds} dimensions')
         if name == 'UGrid':
             marker = 'UGRID' in str(ds.attrs.get('Conventions', ''))
             mesh2d = any(v.attrs.get('cf_role') == 'mesh_topology' and v.attrs.get('topology_dimension') == 2
